@@ -63,33 +63,38 @@ def SElem.toT (e : SElem) : TVal :=
 
 def lastPart (name : String) : String := (name.splitOn ".").getLast?.getD name
 
-/-- the loop body of `schema()` over the group names of one path: `m` maps a *bare name* to the
-index of its element in `out`; returns `none` where the Go code indexes `f.Types[i]` out of range. -/
-def schemaGroups (types : List Rep) : Nat → List String → (List SElem × List (String × Nat) × Nat) →
-    Option (List SElem × List (String × Nat) × Nat)
-  | _, [], st => some st
-  | i, name :: names, (out, m, children) =>
-    match m.lookup name with
-    | some idx =>
-      let out := out.modify idx (fun e => { e with numChildren := some (e.numChildren.getD 0 + 1) })
-      schemaGroups types (i+1) names (out, m, children)
-    | none =>
-      match types[i]? with
-      | none => none
-      | some rt =>
-        let e : SElem := { name := lastPart name, rep := some rt.code, numChildren := some 1 }
-        schemaGroups types (i+1) names (out ++ [e], (name, out.length) :: m, children + 1)
+/-- `addChild(parent)`: one more direct child of the group at path `parent` (the root when the
+path names no group) -/
+def addChild (parent : List String) (st : List SElem × List (List String × Nat) × Nat) : List SElem × List (List String × Nat) × Nat :=
+  let (out, groups, children) := st
+  match groups.lookup parent with
+  | none => (out, groups, children + 1)
+  | some idx => (out.modify idx (fun e => { e with numChildren := some (e.numChildren.getD 0 + 1) }), groups, children)
 
-def schemaLoop : List Col → (List SElem × List (String × Nat) × Nat) → Option (List SElem × Nat)
+/-- the inner loop of `schema()` over the group prefixes of one path: groups are keyed by their
+full path; a missing `Types[i]` means required. Returns the state and the last group's key. -/
+def schemaGroups (types : List Rep) (path : List String) : Nat → List String → List String →
+    (List SElem × List (List String × Nat) × Nat) → (List SElem × List (List String × Nat) × Nat) × List String
+  | _, [], parent, st => (st, parent)
+  | i, name :: names, parent, st =>
+    let key := path.take (i + 1)
+    let (out, groups, children) := st
+    match groups.lookup key with
+    | some _ => schemaGroups types path (i+1) names key st
+    | none =>
+      let rt := (types[i]?).getD .req
+      let e : SElem := { name := lastPart name, rep := some rt.code, numChildren := some 0 }
+      let st' := addChild parent (out ++ [e], (key, out.length) :: groups, children)
+      schemaGroups types path (i+1) names key st'
+
+def schemaLoop : List Col → (List SElem × List (List String × Nat) × Nat) → Option (List SElem × Nat)
   | [], (out, _, children) => some (out, children)
-  | c :: cs, (out, m, children) =>
+  | c :: cs, st =>
+    if c.path.length = 0 then none else   -- f.Path[len-1] on an empty path panics
     let leaf : SElem := { name := c.path.getLast?.getD "", ty := some c.ty.phys, rep := some c.leafRep.code, converted := c.ty.converted }
-    if c.path.length > 1 then
-      match schemaGroups c.reps 0 c.path.dropLast (out, m, children) with
-      | none => none
-      | some (out, m, children) => schemaLoop cs (out ++ [leaf], m, children)
-    else if c.path.length = 1 then schemaLoop cs (out ++ [leaf], m, children + 1)
-    else none   -- f.Path[len-1] on an empty path panics
+    let (st, parent) := schemaGroups c.reps c.path 0 c.path.dropLast [] st
+    let (out, groups, children) := st
+    schemaLoop cs (addChild parent (out ++ [leaf], groups, children))
 
 /-- mirror of `schema.schema()`: the flattened footer schema (root first); `none` = Go panics -/
 def schemaElems (cols : List Col) : Option (List SElem) :=
